@@ -10,6 +10,18 @@ pub(crate) mod sync {
         };
     }
 }
+#[cfg(all(nexosim_verif, not(all(test, nexosim_loom))))]
+#[allow(unused_imports)]
+pub(crate) mod sync {
+    pub(crate) use crate::verif::sync::{Arc, LockResult, Mutex, MutexGuard, PoisonError};
+
+    pub(crate) mod atomic {
+        pub(crate) use crate::verif::sync::atomic::{
+            fence, AtomicBool, AtomicIsize, AtomicPtr, AtomicU32, AtomicU64, AtomicUsize, Ordering,
+        };
+    }
+}
+#[cfg(not(nexosim_verif))]
 #[cfg(not(all(test, nexosim_loom)))]
 #[allow(unused_imports)]
 pub(crate) mod sync {
